@@ -284,28 +284,52 @@ def sig_base(sig):
 
 def shrink(scn):
     yield from shrink_list(scn, 'vecs', 1)
-    if scn['kind'] == 'prog':
-        # drop statements of the clock/propagate body (top-level lines and whole indented groups)
-        p = scn['prog']
-        lines = p['src'].split('\n')
-        start = next(i for i, l in enumerate(lines) if l.startswith('    def clock') or l.startswith('    def propagate')) + 1
-        body = lines[start:]
-        groups = []
-        i = 0
-        while i < len(body):
-            j = i + 1
-            if body[i].startswith('        ') and not body[i].startswith('         '):
-                while j < len(body) and (body[j].startswith('         ') or body[j].lstrip().startswith(('elif', 'else', 'case'))):
-                    j += 1
-            groups.append((i, j))
-            i = j
-        for (a, b) in groups:
-            nb = body[:a] + body[b:]
-            if not [l for l in nb if l.strip()]:
-                continue
-            src = '\n'.join(lines[:start] + nb)
-            try:
-                compile(src, '<shrink>', 'exec')
-            except SyntaxError:
-                continue
-            yield dict(scn, prog=dict(p, src=src))
+    if scn['kind'] != 'prog':
+        return
+    # AST-level shrinking of the clock()/propagate() body: drop a statement at any depth, or replace an
+    # if / match by one of its bodies
+    import ast
+    p = scn['prog']
+    try:
+        tree = ast.parse(p['src'])
+    except SyntaxError:
+        return
+    cls = next(n for n in tree.body if isinstance(n, ast.ClassDef))
+    fn = next(n for n in cls.body if isinstance(n, ast.FunctionDef) and n.name in ('clock', 'propagate'))
+
+    def bodies(node):
+        for field in ('body', 'orelse'):
+            lst = getattr(node, field, None)
+            if isinstance(lst, list) and lst and isinstance(lst[0], ast.stmt):
+                yield node, field, lst
+                for st in lst:
+                    yield from bodies(st)
+        if isinstance(node, ast.Match):
+            for case in node.cases:
+                yield case, 'body', case.body
+                for st in case.body:
+                    yield from bodies(st)
+    sites = list(bodies(fn))
+    for owner, field, lst in sites:
+        for k in range(len(lst)):
+            orig = list(lst)
+            st = lst[k]
+            variants = [[]]
+            if isinstance(st, ast.If):
+                variants += [list(st.body)] + ([list(st.orelse)] if st.orelse else [])
+            elif isinstance(st, ast.Match):
+                variants += [list(c.body) for c in st.cases]
+            for rep in variants:
+                new = orig[:k] + rep + orig[k + 1:]
+                if not new:
+                    new = [ast.Pass()]
+                setattr(owner, field, new)
+                try:
+                    src = ast.unparse(ast.fix_missing_locations(tree)) + '\n'
+                    compile(src, '<shrink>', 'exec')
+                    ok = True
+                except Exception:
+                    ok = False
+                setattr(owner, field, orig)
+                if ok and src != p['src']:
+                    yield dict(scn, prog=dict(p, src=src))
